@@ -1,57 +1,65 @@
-//! Experiment (not a registered check): true smallest edge-to-opposite-edge distance of the cells of a depth, from the
-//! reference geometry, to be compared with the thresholds of best_starting_depth (known finding R5).
-use crate::gen::*;
+//! Reference-data generator (not a registered check): the true smallest edge-to-opposite-edge distance W(d) of the cells of each
+//! depth, from the reference geometry, with the cell, the two nearest points (p on one edge, q on the opposite edge) that realise it.
+//! `hpxmon --prop XBSD --out f.json` (about 10 min on 16 cores); tools/gen_bsd_witness.py turns the result into
+//! harness/src/mon/bsd_witness.rs, which C16 uses as witnesses (a cone centred just outside p with radius just above W(d) crosses
+//! the whole cell and leaves the 3x3 block at depth d) and which documented the re-derivation of SMALLER_EDGE2OPEDGE_DIST (R5).
 use crate::refm::*;
 use crate::util::*;
 use crate::Monitor;
 use std::collections::BTreeMap;
+use std::sync::Mutex;
 
-pub fn monitor() -> Monitor { Monitor { id: "XBSD", rule: "experiment", assumptions: &[], run, replay: |_, _| {} } }
+pub fn monitor() -> Monitor { Monitor { id: "XBSD", rule: "reference data generator", assumptions: &[], run, replay: |_, _| {} } }
 
-/// point of an edge of cell h in the plane: edge k (0: S->E, 1: E->N, 2: N->W, 3: W->S), t in [0,1]
-fn edge_point(depth: u8, h: u64, k: usize, t: f64) -> (f64, f64) {
+/// point of an edge of cell h: edge k (0: S->E, 1: E->N, 2: N->W, 3: W->S), t in [0,1]
+pub fn edge_point(depth: u8, h: u64, k: usize, t: f64) -> (f64, f64) {
   let ns = nside(depth) as f64; let (cx, cy) = cell_center_proj(depth, h);
   let vs = [(cx, cy - 1.0 / ns), (cx + 1.0 / ns, cy), (cx, cy + 1.0 / ns), (cx - 1.0 / ns, cy)];
-  let (a, b) = (vs[k], vs[(k + 1) % 4]);
+  let (a, b) = (vs[k % 4], vs[(k + 1) % 4]);
   ref_unproj((a.0 + (b.0 - a.0) * t).rem_euclid(8.0), (a.1 + (b.1 - a.1) * t).max(-2.0).min(2.0))
 }
-/// min distance between edge k and the opposite edge k+2 of cell h
-pub fn width(depth: u8, h: u64, k: usize) -> f64 {
-  let n = 24;
+/// min distance between edge k and the opposite edge k+2 of cell h, with the parameters of the two nearest points
+pub fn width(depth: u8, h: u64, k: usize, fine: bool) -> (f64, f64, f64) {
+  let n = if fine { 24 } else { 8 };
   let mut best = (f64::INFINITY, 0.5, 0.5);
   for a in 0..=n { for b in 0..=n { let (ta, tb) = (a as f64 / n as f64, b as f64 / n as f64); let d = dist(edge_point(depth, h, k, ta), edge_point(depth, h, k + 2, tb)); if d < best.0 { best = (d, ta, tb); } } }
-  // refine by shrinking grid
   let mut step = 1.0 / n as f64;
-  for _ in 0..30 { step *= 0.5; let (t0a, t0b) = (best.1, best.2);
+  for _ in 0..(if fine { 40 } else { 12 }) { step *= 0.5; let (t0a, t0b) = (best.1, best.2);
     for da in -1..=1 { for db in -1..=1 { let ta = (t0a + da as f64 * step).max(0.0).min(1.0); let tb = (t0b + db as f64 * step).max(0.0).min(1.0); let d = dist(edge_point(depth, h, k, ta), edge_point(depth, h, k + 2, tb)); if d < best.0 { best = (d, ta, tb); } } } }
-  best.0
+  best
+}
+
+fn one_depth(depth: u8) -> (String, u64) {
+  let m = nside(depth) as u32 - 1;
+  let mut cells: Vec<u64> = Vec::new();
+  if depth <= 6 { cells = (0..n_hash(depth)).collect(); } else {
+    let samp = |n: u32| -> Vec<u32> { let mut v: Vec<u32> = (0..=n).map(|k| ((k as u64 * m as u64) / n as u64) as u32).collect(); v.dedup(); v };
+    for d0 in [0u64, 4, 8].iter() {
+      for &a in samp(96).iter() { for &b in samp(96).iter() { cells.push(join(depth, *d0, a, b)); } }
+      for &a in samp(8192).iter() { for e in 0..3u32.min(m) { for &(i, j) in [(a, e), (a, m - e), (e, a), (m - e, a)].iter() { cells.push(join(depth, *d0, i, j)); } } }
+    }
+    cells.sort(); cells.dedup();
+  }
+  let mut n = 0u64;
+  let mut best = (f64::INFINITY, 0u64, 0usize);
+  for &h in cells.iter() { for k in 0..2 { let w = width(depth, h, k, false).0; n += 1; if w < best.0 { best = (w, h, k); } } }
+  if depth > 6 { for _ in 0..40 { let (d0, i, j) = split(depth, best.1); let mm = m as i64; let mut moved = false;
+    for di in -64i64..=64 { for dj in -3i64..=3 { for &(a, b) in [(i as i64 + di, j as i64 + dj), (i as i64 + dj, j as i64 + di)].iter() { if a < 0 || b < 0 || a > mm || b > mm { continue; }
+      let h = join(depth, d0, a as u32, b as u32); for k in 0..2 { let w = width(depth, h, k, false).0; n += 1; if w < best.0 { best = (w, h, k); moved = true; } } } } }
+    if !moved { break; } } }
+  let (w, ta, tb) = width(depth, best.1, best.2, true);
+  let (p, q) = (edge_point(depth, best.1, best.2, ta), edge_point(depth, best.1, best.2 + 2, tb));
+  let (d0, i, j) = split(depth, best.1);
+  (format!("{{\"depth\": {}, \"w\": {:e}, \"w_bits\": \"{:016x}\", \"w_times_nside\": {}, \"cell\": {}, \"d0\": {}, \"i\": {}, \"j\": {}, \"edge\": {}, \"ta\": {}, \"tb\": {}, \"p\": [\"{:016x}\", \"{:016x}\"], \"q\": [\"{:016x}\", \"{:016x}\"], \"p_f\": [{}, {}], \"q_f\": [{}, {}], \"cells_examined\": {}}}",
+    depth, w, w.to_bits(), w * nside(depth) as f64, best.1, d0, i, j, best.2, ta, tb, p.0.to_bits(), p.1.to_bits(), q.0.to_bits(), q.1.to_bits(), p.0, p.1, q.0, q.1, cells.len()), n)
 }
 
 fn run(ctx: &mut Ctx, extra: &mut BTreeMap<String, String>) {
-  let thr = bsd_thresholds();
-  let mut out = Vec::new();
-  for depth in 0..=29u8 {
-    // candidates: exhaustive for depth <= 5, otherwise cells of the polar cap base cell 0 and equatorial 4 near borders/corners
-    let mut cells: Vec<u64> = Vec::new();
-    if depth <= 5 { cells = (0..n_hash(depth)).collect(); } else {
-      let m = nside(depth) as u32 - 1;
-      let samp = |n: u32| -> Vec<u32> { let mut v: Vec<u32> = (0..=n).map(|k| ((k as u64 * m as u64) / n as u64) as u32).collect(); v.dedup(); v };
-      for d0 in [0u64, 4, 8].iter() {
-        for &a in samp(192).iter() { for &b in samp(192).iter() { cells.push(join(depth, *d0, a, b)); } }
-        for &a in samp(8192).iter() { for e in 0..3u32.min(m) { for &(i, j) in [(a, e), (a, m - e), (e, a), (m - e, a)].iter() { cells.push(join(depth, *d0, i, j)); } } }
-      }
-      cells.sort(); cells.dedup();
-    }
-    let mut best = (f64::INFINITY, 0u64, 0usize);
-    for &h in cells.iter() { for k in 0..2 { let w = width(depth, h, k); ctx.eval(); if w < best.0 { best = (w, h, k); } } }
-    if depth > 5 { for _ in 0..6 { let (d0, i, j) = split(depth, best.1); let m = nside(depth) as i64 - 1; let mut moved = false;
-      for di in -48i64..=48 { for dj in -3i64..=3 { for &(a, b) in [(i as i64 + di, j as i64 + dj), (i as i64 + dj, j as i64 + di)].iter() { if a < 0 || b < 0 || a > m || b > m { continue; }
-        let h = join(depth, d0, a as u32, b as u32); for k in 0..2 { let w = width(depth, h, k); if w < best.0 { best = (w, h, k); moved = true; } } } } }
-      if !moved { break; } } }
-    let (d0, i, j) = split(depth, best.1);
-    let c = ref_center(depth, best.1);
-    out.push(format!("{{\"depth\": {}, \"true_min_width\": {:e}, \"threshold\": {:e}, \"ratio\": {:.6}, \"cell\": [{}, {}, {}], \"edge\": {}, \"centre\": [{:.6}, {:.6}]}}", depth, best.0, thr[depth as usize], best.0 / thr[depth as usize], d0, i, j, best.2, c.0, c.1));
-  }
+  let out: Mutex<Vec<(u8, String, u64)>> = Mutex::new(Vec::new());
+  let next = std::sync::atomic::AtomicUsize::new(0);
+  std::thread::scope(|s| { for _ in 0..16 { s.spawn(|| loop { let d = next.fetch_add(1, std::sync::atomic::Ordering::SeqCst); if d >= 30 { break; } let depth = (29 - d) as u8; let (line, n) = one_depth(depth); out.lock().unwrap().push((depth, line, n)); }); } });
+  let mut v = out.into_inner().unwrap(); v.sort();
+  for x in v.iter() { ctx.evals_n(x.2); }
   ctx.hard("x", &[1]); ctx.hard("x", &[2]);
-  extra.insert("widths".into(), format!("[{}]", out.join(", ")));
+  extra.insert("widths".into(), format!("[{}]", v.iter().map(|x| x.1.clone()).collect::<Vec<_>>().join(", ")));
 }
